@@ -50,8 +50,9 @@ type TMHist struct {
 	Level   int      `json:"level"`
 	Init    []TMJoin `json:"init"`
 	Ops     []TMOp   `json:"ops"`
-	Play    []int    `json:"play"`     // after which op indexes a hand is played (to get between-hands states)
-	PolSeed uint64   `json:"pol_seed"` // seed of the betting policy used for those hands
+	Play    []int    `json:"play"`                   // after which op indexes a hand is played (to get between-hands states)
+	PolSeed uint64   `json:"pol_seed"`               // seed of the betting policy used for those hands
+	AutoIn  bool     `json:"auto_seat_in,omitempty"` // at the end one reserved player is left to the engine's own seating-in (17 s)
 }
 
 func (d *Drv) applyTM(op *TMOp) (res string, errText string) {
@@ -225,6 +226,13 @@ func genTMHist(r *RNG, idx int) TMHist {
 			h.Play = append(h.Play, k)
 		}
 	}
+	h.AutoIn = idx%10 == 3
+	if h.AutoIn {
+		h.Play = nil // nothing else may happen during the waiting period: the table's game is never started
+		if h.Mode == "mtt" {
+			h.Mode = "ct" // an MTT table starts its game by itself once everybody has sat in
+		}
+	}
 	return h
 }
 
@@ -282,8 +290,49 @@ func runTMHist(h *TMHist, seed uint64) []TMCase {
 			break // membership during a hand is not C03's subject (C01/C02 look at it)
 		}
 	}
+	if h.AutoIn && !betweenHandsBusy(d.Abs()) && d.Abs().StartAt == -1 && h.Mode != "mtt" {
+		// whoever has a seat but has not sat in is seated in by the engine itself after its waiting period (17 s): the
+		// same transition as an explicit PlayerJoin.  All but one are joined explicitly so that the step is one MJoin.
+		var waiting []int
+		for _, p := range d.Abs().Players {
+			if !p.In {
+				waiting = append(waiting, p.ID)
+			}
+		}
+		if len(waiting) > 0 {
+			for _, id := range waiting[1:] {
+				d.JoinAndSettle(pid(id))
+			}
+			d.Quiesce(quiesceLimit)
+			pre := d.Abs()
+			id := waiting[0]
+			// a fresh reservation restarts the waiting period: re-buy one chip for that player
+			d.te.PlayerReserve(pt.JoinPlayer{PlayerID: pid(id), RedeemChips: 1, Seat: -1})
+			d.Quiesce(quiesceLimit)
+			pre = d.Abs()
+			for w := 0; w < 200; w++ {
+				in := false
+				for _, p := range d.Abs().Players {
+					if p.ID == id && p.In {
+						in = true
+					}
+				}
+				if in {
+					break
+				}
+				time.Sleep(100 * time.Millisecond)
+			}
+			d.Quiesce(quiesceLimit)
+			post := d.Abs()
+			cases = append(cases, TMCase{Hist: h.Index, Step: len(h.Ops), Pre: pre, Op: TMOp{Kind: "join", ID: id}, Res: "ok", Post: post})
+		}
+	}
 	d.takeEvents()
 	return cases
+}
+
+func betweenHandsBusy(a TAbs) bool {
+	return a.Status == "table_game_opened" || a.Status == "table_game_playing" || a.Status == "table_game_settled"
 }
 
 // ---- Gallina ----
